@@ -73,6 +73,17 @@ class Chunk:
             raise ValueError(
                 f"Attempt to create chunk {self} with data of {dtype}, should be {expected_dtype}"
             )
+        # Same fields and types is not enough, the bytes of a row must be laid out as declared
+        # (storage writes the raw bytes and reads them back with the declared dtype)
+        declared_dtype = np.dtype(dtype)
+        if declared_dtype.itemsize != self.data.dtype.itemsize or any(
+            declared_dtype.fields[name][1] != self.data.dtype.fields[name][1]
+            for name in got_dtype.names
+        ):
+            raise ValueError(
+                f"Attempt to create chunk {self} with data whose memory layout (field offsets or "
+                f"item size) differs from that of the declared dtype {dtype}"
+            )
         if self.start < 0:
             raise ValueError(f"Attempt to create chunk {self} with negative start time")
         if self.start > self.end:
